@@ -345,10 +345,22 @@ NamespacesHandler::getNamespace(const XalanDOMString&   thePrefix) const
     }
     else
     {
-        const NamespacesVectorType::value_type* const   theNamespace =
-            findByPrefix(m_excludedResultPrefixes, thePrefix);
+        // The prefixes excluded on the owner element itself follow the
+        // inherited ones, and take precedence over them...
+        NamespacesVectorType::size_type     i = m_excludedResultPrefixes.size();
 
-        return theNamespace != 0 ? &theNamespace->getURI() : 0;
+        while(i > 0)
+        {
+            const NamespacesVectorType::value_type&     theNamespace =
+                m_excludedResultPrefixes[--i];
+
+            if (theNamespace.getPrefix() == thePrefix)
+            {
+                return &theNamespace.getURI();
+            }
+        }
+
+        return 0;
     }
 }
 
